@@ -389,33 +389,51 @@ def check_tail(ctx, v, obj, cls, a, b, uni):
 
 # ------------------------------------------------------------------ delivery through the optimizer (binding A)
 def dlv_key(v):
-    return json.dumps([v['pk'], v['route'], v['name'], v['call']], sort_keys=True)
+    return json.dumps([v.get('focus', 'model'), v.get('comp', 'alone'), v['pk'], v['route'], v['name'], v['call']], sort_keys=True)
 
 
-def dlv_cls(v):
-    return '%s:%s|mode=%s(%s)|route=%s' % (v['call']['cls'], v['call']['key1'], v['mode'], v['pk'], v['route'])
+def fitted_set(v):
+    return '%s-only' % v['focus'] if v['comp'] == 'alone' else 'mixed(company:%s)' % v['comp']
 
 
-def dlv_item(v, rng):
-    """The public calls that realise the spec's Attach action for one parameter."""
-    call = v['call']
+def dlv_cls(v, slot):
+    return '%s:%s|mode=%s(%s)|route=%s|owner=%s(%s)|set=%s' % (slot['call']['cls'], slot['call']['key1'], slot['mode'], slot['pk'],
+                                                           slot['route'], slot['owner'], slot['role'], fitted_set(v))
+
+
+def spec_bounds(slot):
+    """The parameter's linear-space bounds as the spec carries them (exponents for a log-mode parameter)."""
+    return pyval('lin_bounds' if slot['mode'] == 'log' else 'bounds', slot['bounds'])
+
+
+def dlv_item(slot, rng):
+    """The public calls that realise the spec's Attach action for one fitted parameter (of either owner)."""
+    call = slot['call']
     kw = kwargs_of(call)
-    param = fxp.KIND_PARAM[v['pk']]
-    it = dict(param=param, mode_switch=fxp.SWITCH.get(param), route=v['route'], prior=None, text=None, bounds=None)
-    if v['route'] == 'default':
+    param = fxp.PARAM[(slot['owner'], slot['pk'])]
+    it = dict(param=param, mode_switch=fxp.SWITCH.get(param), route=slot['route'], prior=None, text=None, bounds=None)
+    if slot['route'] == 'default':
         it['bounds'] = kw[call['key1']]          # linear-space bounds of the parameter (10**e for a log-mode parameter)
-    elif v['route'] == 'set_prior':
-        it['prior'] = klass(call['cls'])(**kw)
+        if tuple(it['bounds']) != tuple(spec_bounds(slot)):
+            raise Machinery('default call and bounds of the slot differ: %r' % (slot,))
     else:
-        it['text'] = rng.choice(text_forms(v['name'], kw, rng))
+        if rng.random() < 0.5:                   # a user who gives a prior may set the boundaries as well: they must not matter
+            it['bounds'] = spec_bounds(slot)
+        if slot['route'] == 'set_prior':
+            it['prior'] = klass(call['cls'])(**kw)
+        else:
+            it['text'] = rng.choice(text_forms(slot['name'], kw, rng))
     return it
 
 
 def check_delivery_batch(ctx, batch, rng):
-    """One optimizer, one parameter per vector of the batch (distinct parameter kinds): Attach, Compile, then the
-    sampler's step for every u of the grid; what each setter receives is compared with the exported value."""
-    opt, model = fxp.fresh()
-    items = [dlv_item(v, rng) for v in batch]
+    """One optimizer for the vectors of the batch (same focus owner and company, distinct parameter kinds, so that the
+    fitted set is model-only / observation-only / mixed exactly as in the spec): Attach for every fitted parameter of
+    either owner, Compile (once or again), then the sampler's step for every u of the grid; what each owner's setter
+    receives is compared with the exported value."""
+    opt, owners = fxp.fresh_owners()
+    slots = [(v, s) for v in batch for _, s in sorted(v['slots'].items())]
+    items = [dlv_item(s, rng) for _, s in slots]
     order = list(range(len(items)))
     rng.shuffle(order)
     for i in order:
@@ -423,89 +441,108 @@ def check_delivery_batch(ctx, batch, rng):
             fxp.setup_by_file(opt, [items[i]])
         else:
             fxp.setup_by_calls(opt, [items[i]])
-    opt.compile_params()
+    ncompile = 1 + (rng.random() < 0.3)          # the spec's Recompile: compiling again changes nothing
+    for _ in range(ncompile):
+        opt.compile_params()
     names = [p[0] for p in opt.fitting_parameters]
+    want_names = sorted(it['param'] for it in items)
     live = []
-    for v, it in zip(batch, items):
-        cls = dlv_cls(v)
-        slim = dict(dlv=True, pk=v['pk'], route=v['route'], name=v['name'], call=v['call'], text=it['text'])
-        direct = describe(klass(v['call']['cls'])(**kwargs_of(v['call'])))
-        if names.count(it['param']) != 1 or len(opt.fitting_priors) != len(names):
-            ctx.verdict('delivery_prior_attached', False, cls=cls, vector=slim, detail='fitted parameters %r, %d priors' % (names, len(opt.fitting_priors)))
+    for (v, s), it in zip(slots, items):
+        cls = dlv_cls(v, s)
+        slim = dict(dlv=True, focus=v['focus'], comp=v['comp'], pk=v['pk'], route=v['route'], name=v['name'], call=v['call'],
+                    owner=s['owner'], slot_call=s['call'], text=it['text'], ncompile=ncompile)
+        direct = describe(klass(s['call']['cls'])(**kwargs_of(s['call'])))
+        if sorted(names) != want_names or len(opt.fitting_priors) != len(names):
+            ctx.verdict('delivery_prior_attached', False, cls=cls, vector=slim,
+                        detail='fitted parameters %r (expected %r), %d priors' % (names, want_names, len(opt.fitting_priors)))
             continue
         pri = opt.fitting_priors[names.index(it['param'])]
         d = describe(pri)
-        okp = d == direct and d['mode'] == v['space'] and d['cls'] == v['p']['kind']
+        okp = d == direct and d['mode'] == s['space'] and d['cls'] == s['p']['kind']
         ctx.verdict('delivery_prior_attached', okp, cls=cls, vector=slim,
-                    detail='prior of %s after compile_params is %r, direct construction %r' % (it['param'], d, direct))
+                    detail='prior of %s (owned by the %s, %s) after compile_params is %s(%s), expected %s: direct construction %r'
+                           % (it['param'], s['owner'], 'user prior via ' + s['route'] if s['given'] else 'no prior given',
+                              d['cls'], pri.params(), s['p']['kind'], direct))
         if okp:
-            live.append((v, it, cls, slim, pri))
+            live.append((v, s, it, cls, slim, pri))
     for k in range(UN + 1):
         u = k / UN
         cube = [float(q.sample(u)) for q in opt.fitting_priors]
-        before = {n: len(model.received[n]) for n in names}
+        before = {o: {n: len(r) for n, r in owners[o].received.items()} for o in owners}
         opt.update_model(cube)
-        for v, it, cls, slim, pri in live:
-            r = v['recv'][k]
+        for v, s, it, cls, slim, pri in live:
+            r = s['recv'][k]
             if r['sp'] == 'none':
                 continue
-            got_all = model.received[it['param']][before[it['param']]:]
-            a, b = float(frac(v['p']['a'])), float(frac(v['p']['b']))
-            uni = v['p']['kind'] in ('Uniform', 'LogUniform')
+            got_all = owners[s['owner']].received[it['param']][before[s['owner']][it['param']]:]
+            a, b = float(frac(s['p']['a'])), float(frac(s['p']['b']))
+            uni = s['p']['kind'] in ('Uniform', 'LogUniform')
             x = float(frac(r['x'])) if uni else a + b * ND.inv_cdf(u)
             rel = REL_U if uni else REL_G
             if len(got_all) != 1:
                 ok, detail = False, 'setter of %s called %d times by update_model' % (it['param'], len(got_all))
             else:
                 got = float(got_all[0])
-                if r['sp'] == 'pow10':          # the model must receive 10**x: compare in the prior's own (log10) space
+                if r['sp'] == 'pow10':          # the owner must receive 10**x: compare in the prior's own (log10) space
                     ok = got > 0 and math.isfinite(got) and abs(math.log10(got) - x) <= rel * max(abs(x), abs(a), abs(b)) + 1e-14
                     ok = ok and (uni or abs(math.log10(got) - float(frac(r['x']))) <= b * 0.5 / ZS + 1e-9)
-                    detail = 'model received %r, expected 10**%r = %r' % (got, x, 10.0 ** x if abs(x) < 300 else None)
+                    detail = 'received %r, expected 10**%r = %r' % (got, x, 10.0 ** x if abs(x) < 300 else None)
                 else:
                     ok = same(got, x, rel, scale=max(abs(a), abs(b)))
                     ok = ok and (uni or abs(got - float(frac(r['x']))) <= b * 0.5 / ZS + 1e-9)
-                    detail = 'model received %r, expected %r' % (got, x)
-                detail = '%s of %s (mode %s) with %s(%s) via %s, u=%d/%d: %s' % (
-                    it['param'], 'RecordingModel', v['mode'], v['p']['kind'], pri.params(), v['route'], k, UN, detail)
-            ctx.verdict('delivered_to_model', ok, cls=cls, vector=dict(slim, k=k), detail=detail)
+                    detail = 'received %r, expected %r' % (got, x)
+                detail = '%s of the %s (mode %s) with %s(%s) via %s, u=%d/%d: %s' % (
+                    it['param'], s['owner'], s['mode'], s['p']['kind'], pri.params(), s['route'], k, UN, detail)
+            ctx.verdict('delivered_to_model' if s['owner'] == 'model' else 'delivered_to_observation', ok, cls=cls,
+                        vector=dict(slim, k=k), detail=detail)
 
 
 def run_delivery(ctx, zf, vecs=None, only=None):
     env = {'PRIORS_Z_FILE': zf}
     if vecs is None:
         res = ctx.check_spec('delivery', 'MC_PriorDelivery', 'MC_PriorDelivery_%s.cfg' % ctx.tier,
-                             need_actions=('Attach', 'Compile', 'Update'), env=env, workers=1)
+                             need_actions=('Attach', 'CompileModel', 'CompileObservation', 'Recompile', 'Update'), env=env, workers=1)
         ctx.expect_refuted('delivery-by-mode-refuted', 'MC_PriorDelivery', 'MC_PriorDelivery_bymode.cfg', 'DeliveryInv', env=env, workers=4)
+        ctx.expect_refuted('delivery-second-pass-blind-refuted', 'MC_PriorDelivery', 'MC_PriorDelivery_secondblind.cfg',
+                           'UserPriorInForceInv', env=env, workers=4)
         vecs = res.tagged('DLV')
-        # vacuity guard: every constructor form x every parameter kind, every route, prior space != parameter mode included
-        combos = {(v['call']['cls'], v['call']['key1'], v['pk']) for v in vecs if v['route'] != 'default'}
-        routes = {v['route'] for v in vecs}
-        crossed = {(v['space'], v['mode']) for v in vecs}
-        if len(combos) != 24 or routes != {'set_prior', 'text', 'file', 'default'} or len(crossed) != 4:
-            raise Machinery('delivery export incomplete: %d form x kind combinations, routes %r, space x mode %r'
-                            % (len(combos), sorted(routes), sorted(crossed)))
+        # vacuity guard: every constructor form x every parameter kind x both owners, every route, prior space != parameter
+        # mode included, every fitted set (model-only, observation-only, mixed with a default / a user prior in company)
+        combos = {(v['call']['cls'], v['call']['key1'], v['pk'], v['focus']) for v in vecs if v['route'] != 'default'}
+        routes = {(v['route'], v['focus']) for v in vecs}
+        crossed = {(s['owner'], s['space'], s['mode']) for v in vecs for s in v['slots'].values()}
+        sets = {(v['focus'], v['comp'], tuple(sorted(v['slots']))) for v in vecs}
+        given = {(s['owner'], s['role'], s['given']) for v in vecs for s in v['slots'].values()}
+        if len(combos) != 48 or len(routes) != 8 or len(crossed) != 8 or len(given) != 8 or sets != {
+                ('model', 'alone', ('model',)), ('observation', 'alone', ('observation',)),
+                ('model', 'default', ('model', 'observation')), ('observation', 'default', ('model', 'observation')),
+                ('model', 'user', ('model', 'observation')), ('observation', 'user', ('model', 'observation'))}:
+            raise Machinery('delivery export incomplete: %d form x kind x owner combinations, routes %r, owner x space x mode %r, '
+                            'fitted sets %r, owner x role x given %r' % (len(combos), sorted(routes), sorted(crossed), sorted(sets), sorted(given)))
     rng = random.Random(ctx.seed * 9176 + 8)
     groups = {}
     for v in vecs:
-        groups.setdefault(v['pk'], []).append(v)
-    for g in groups.values():
-        g.sort(key=dlv_key)
-        rng.shuffle(g)
-    n = max(len(g) for g in groups.values())
+        groups.setdefault((v['focus'], v['comp']), {}).setdefault(v['pk'], []).append(v)
     nb = 0
-    for i in range(n):
-        batch = [g[i % len(g)] for _, g in sorted(groups.items())]
-        if only is not None:
-            batch = [v for v in batch if dlv_key(v) in only]
-            if not batch:
-                continue
-        check_delivery_batch(ctx, batch, rng)
-        nb += 1
-    ctx.note('delivery: %d exported (parameter kind, route, call) vectors replayed in %d optimizers' % (len(vecs), nb))
+    for _, bykind in sorted(groups.items()):
+        for g in bykind.values():
+            g.sort(key=dlv_key)
+            rng.shuffle(g)
+        n = max(len(g) for g in bykind.values())
+        for i in range(n):
+            batch = [g[i % len(g)] for _, g in sorted(bykind.items())]
+            if only is not None:
+                batch = [v for v in batch if dlv_key(v) in only]
+                if not batch:
+                    continue
+            check_delivery_batch(ctx, batch, rng)
+            nb += 1
+    ctx.note('delivery: %d exported (owner, company, parameter kind, route, call) vectors replayed in %d optimizers' % (len(vecs), nb))
     if vecs:
-        ctx.add_sample(dict(delivery_vector={k: vecs[0][k] for k in ('pk', 'mode', 'route', 'name', 'call', 'space')},
-                            recv=vecs[0]['recv'][:3]))
+        mixed = [v for v in vecs if v['focus'] == 'observation' and v['comp'] == 'user' and v['route'] != 'default'] or vecs
+        ctx.add_sample(dict(delivery_vector={k: mixed[0][k] for k in ('focus', 'comp', 'pk', 'mode', 'route', 'name', 'call')},
+                            slots={o: dict({k: s[k] for k in ('pk', 'mode', 'route', 'call', 'given', 'p', 'space')}, recv=s['recv'][:3])
+                                   for o, s in mixed[0]['slots'].items()}))
     return vecs
 
 
@@ -611,20 +648,42 @@ def deliver_reading(recv, S):
     return out
 
 
-def deliver_event(kind, a, b, given, pk, j, eid):
+def deliver_event(kind, a, b, given_args, pk, j, eid, owner='model', company='alone', given=True):
+    """One real update_model on a fitted parameter of `owner` of kind `pk`.  given: the user attaches the prior
+    kind(a, b) with set_prior; not given: a, b are the parameter's bounds (exponents of ten for a log-mode parameter,
+    set with set_boundary in the order of given_args) and the prior in force is compile_params' default.
+    company: 'alone', or a fitted parameter of the other owner with a 'default' / 'user' prior."""
     S, UD = 1000, 256
-    opt, model = fxp.fresh()
-    param = fxp.KIND_PARAM[pk]
-    fxp.setup_by_calls(opt, [dict(param=param, mode_switch=fxp.SWITCH.get(param), route='set_prior',
-                                  prior=build_prior(kind, *given))])
+    opt, owners = fxp.fresh_owners()
+    param = fxp.PARAM[(owner, pk)]
+    mode = 'log' if pk in ('log', 'lin2log') else 'linear'
+    items = []
+    if given:
+        items.append(dict(param=param, mode_switch=fxp.SWITCH.get(param), route='set_prior', prior=build_prior(kind, *given_args)))
+    else:
+        bounds = [10.0 ** int(x) for x in given_args] if mode == 'log' else [float(x) for x in given_args]
+        items.append(dict(param=param, mode_switch=fxp.SWITCH.get(param), route='default', bounds=bounds))
+    if company != 'alone':
+        other = 'observation' if owner == 'model' else 'model'
+        cparam = fxp.PARAM[(other, {'lin': 'log2lin', 'log': 'lin2log', 'lin2log': 'lin', 'log2lin': 'log'}[pk])]
+        it = dict(param=cparam, mode_switch=fxp.SWITCH.get(cparam), route='default')
+        if company == 'user':        # a prior of the other space than the one under focus
+            it.update(route='set_prior', prior=build_prior('Gaussian' if kind.startswith('Log') else 'LogUniform', -1.25, 0.75))
+        items.append(it)
+    if eid % 2:
+        items.reverse()
+    fxp.setup_by_calls(opt, items)
     opt.compile_params()
     try:
-        opt.update_model([opt.fitting_priors[0].sample(j / UD)])
-        recv = model.received[param][-1]
+        names = [p[0] for p in opt.fitting_parameters]
+        cube = [float(q.sample(j / UD)) for q in opt.fitting_priors]
+        opt.update_model(cube)
+        got = owners[owner].received[param]
+        recv = got[-1] if len(got) == 1 and names.count(param) == 1 and len(names) == len(items) else float('nan')
     except Exception:
         recv = float('nan')
-    mode = 'log' if pk in ('log', 'lin2log') else 'linear'
     e = dict(id=eid, op='deliver', kind=kind, a=[a.numerator, a.denominator], b=[b.numerator, b.denominator], pk=pk, mode=mode,
+             owner=owner, company=company, given=bool(given),
              j1=j, UD=UD, S=S, tol=1, gtol=int(math.ceil(float(b) * 0.5 / ZS * S)) + 2, got=[float(recv)])
     e.update(deliver_reading(recv, S))
     return e
@@ -633,18 +692,32 @@ def deliver_event(kind, a, b, given, pk, j, eid):
 def deliver_events(rng, n, first_id):
     events = []
     while len(events) < n:
-        kind = rng.choice(['Uniform', 'LogUniform', 'Gaussian', 'LogGaussian'])
-        a, b, given = random_prior_args(rng, kind)
         pk = rng.choice(sorted(fxp.KIND_PARAM))
+        owner = rng.choice(['model', 'observation'])
+        company = rng.choice(['alone', 'default', 'user'])
+        mode = 'log' if pk in ('log', 'lin2log') else 'linear'
+        if rng.random() < 0.75:
+            kind = rng.choice(['Uniform', 'LogUniform', 'Gaussian', 'LogGaussian'])
+            a, b, given_args = random_prior_args(rng, kind)
+            given = True
+        else:                       # no prior given: only the bounds are set; the default prior of the mode is in force
+            given = False
+            if mode == 'log':
+                kind = 'LogUniform'
+                x, y = rng.sample(range(-12, 7), 2)
+                a, b, given_args = Fraction(min(x, y)), Fraction(max(x, y)), (Fraction(x), Fraction(y))
+            else:
+                kind = 'Uniform'
+                a, b, given_args = random_prior_args(rng, kind)
         uni = kind in ('Uniform', 'LogUniform')
         j = rng.randint(0 if uni else 1, 256 if uni else 255)
-        events.append(deliver_event(kind, a, b, given, pk, j, first_id + len(events)))
+        events.append(deliver_event(kind, a, b, given_args, pk, j, first_id + len(events), owner=owner, company=company, given=given))
     return events
 
 
 EVENT_KEYS = {'pair': ('id', 'op', 'kind', 'a', 'b', 'j1', 'j2', 'UD', 'S', 'tol', 'gtol'),
               'tail': ('id', 'op', 'kind', 'a', 'b', 's1', 'b1', 'k1', 's2', 'b2', 'k2', 'S', 'tol', 'gtol'),
-              'deliver': ('id', 'op', 'kind', 'a', 'b', 'pk', 'mode', 'j1', 'UD', 'S', 'tol', 'gtol')}
+              'deliver': ('id', 'op', 'kind', 'a', 'b', 'pk', 'mode', 'owner', 'company', 'given', 'j1', 'UD', 'S', 'tol', 'gtol')}
 
 
 def event_detail(e):
@@ -652,8 +725,9 @@ def event_detail(e):
         return 'TLC rejected samples %r of %s(%s,%s) at u=%s,%s' % (
             e['got'], e['kind'], e['a'], e['b'], pt_name(dict(side=e['s1'], base=e['b1'], k=e['k1'])), pt_name(dict(side=e['s2'], base=e['b2'], k=e['k2'])))
     if e['op'] == 'deliver':
-        return 'TLC rejected the value %r received by the %s-mode parameter (%s) with %s(%s,%s) at u=%d/%d' % (
-            e['got'], e['mode'], e['pk'], e['kind'], e['a'], e['b'], e['j1'], e['UD'])
+        return 'TLC rejected the value %r received by the %s-mode parameter (%s) of the %s (company: %s) with %s %s(%s,%s) at u=%d/%d' % (
+            e['got'], e['mode'], e['pk'], e.get('owner', 'model'), e.get('company', 'alone'),
+            'the user prior' if e.get('given', True) else 'no prior given, bounds for the default', e['kind'], e['a'], e['b'], e['j1'], e['UD'])
     return 'TLC rejected samples %r of %s(%s,%s) at u=%d/%d,%d/%d' % (e['got'], e['kind'], e['a'], e['b'], e['j1'], e['UD'], e['j2'], e['UD'])
 
 
@@ -661,7 +735,8 @@ def event_cls(e):
     if e['op'] == 'tail':
         return '%s:trace:tail' % e['kind']
     if e['op'] == 'deliver':
-        return '%s:trace:mode=%s(%s)' % (e['kind'], e['mode'], e['pk'])
+        return '%s:trace:mode=%s(%s)|owner=%s|company=%s|%s' % (e['kind'], e['mode'], e['pk'], e.get('owner', 'model'), e.get('company', 'alone'),
+                                                                 'given' if e.get('given', True) else 'default')
     return '%s:trace' % e['kind']
 
 
@@ -787,7 +862,8 @@ def replay(ctx, violations):
                 op = vec.get('op', 'pair')
                 a, b = Fraction(*vec['a']), Fraction(*vec['b'])
                 if op == 'deliver':
-                    e = deliver_event(vec['kind'], a, b, (a, b), vec['pk'], vec['j1'], vec['id'])
+                    e = deliver_event(vec['kind'], a, b, (a, b), vec['pk'], vec['j1'], vec['id'], owner=vec.get('owner', 'model'),
+                                      company=vec.get('company', 'alone'), given=vec.get('given', True))
                 elif op == 'tail':
                     e = tail_event(build_prior(vec['kind'], a, b), vec['kind'], a, b, dict(side=vec['s1'], base=vec['b1'], k=vec['k1']),
                                    dict(side=vec['s2'], base=vec['b2'], k=vec['k2']), vec['id'])
